@@ -39,26 +39,27 @@ func renderValue(v atree.Value) string {
 }
 
 type arrEnv struct {
-	w      *hx.W
-	st     *hx.Stats
-	cfg    *Config
-	rng    *rand.Rand
-	T      uint32
-	maxInl uint32
-	ledger *hx.Ledger
-	ps     *atree.PersistentSlabStorage
-	rec    *hx.RecStorage
-	arr    *atree.Array
-	addr   atree.Address
-	ty     hx.TI
-	shadow []hx.TV
+	w       *hx.W
+	st      *hx.Stats
+	cfg     *Config
+	rng     *rand.Rand
+	T       uint32
+	maxInl  uint32
+	ledger  *hx.Ledger
+	ps      *atree.PersistentSlabStorage
+	rec     *hx.RecStorage
+	arr     *atree.Array
+	addr    atree.Address
+	ty      hx.TI
+	shadow  []hx.TV
 	nextPay uint64
-	prog   int
-	step   int
+	prog    int
+	step    int
 	// persistence stream (C03): commits, crashes, reopen on a fresh storage
-	persist    bool
-	committed  []hx.TV // content at the last successful commit
-	hasCommit  bool
+	persist     bool
+	committed   []hx.TV // content at the last successful commit
+	committedTy hx.TI
+	hasCommit   bool
 }
 
 func (e *arrEnv) violation(prop, what string) {
@@ -550,7 +551,6 @@ func (e *arrEnv) iterate(k int) {
 	}
 }
 
-
 // persistStep occasionally commits, crashes (abandons the in-memory storage) or reopens the array
 // from the ledger on a brand-new storage.  It returns true when it consumed the step.
 func (e *arrEnv) persistStep() bool {
@@ -585,6 +585,7 @@ func (e *arrEnv) persistStep() bool {
 			return true
 		}
 		e.committed = append([]hx.TV(nil), e.shadow...)
+		e.committedTy = e.ty
 		e.hasCommit = true
 		// every register, decoded by a brand-new storage using nothing but the ledger
 		fresh := hx.NewStorage(e.ledger)
@@ -618,6 +619,7 @@ func (e *arrEnv) persistStep() bool {
 		}
 		e.arr = a
 		e.shadow = append([]hx.TV(nil), e.committed...)
+		e.ty = e.committedTy
 		w.L("FULL h=0 %s", hx.DumpTree(e.ps, atree.VerifArrayRoot(e.arr)))
 		e.checkReload("after crash", e.shadow)
 		e.st.Hit("persist:crash")
@@ -659,9 +661,7 @@ func (e *arrEnv) checkReload(when string, want []hx.TV) {
 	if err != nil {
 		e.violation("C03", "reload "+when+": iteration failed: "+err.Error())
 	}
-	if ty, ok := a.Type().(hx.TI); !ok || ty != e.tyCommitted() {
-		_ = ty
+	if ty, ok := a.Type().(hx.TI); !ok || ty != e.committedTy {
+		e.violation("C03", fmt.Sprintf("reload %s: type %v, committed type is %v", when, a.Type(), e.committedTy))
 	}
 }
-
-func (e *arrEnv) tyCommitted() hx.TI { return e.ty }
